@@ -1,0 +1,15 @@
+//go:build verif
+
+package open_game_manager
+
+// Verification instrumentation (build tag "verif").
+
+// VerifHook, when set, is called at named points of the open-game manager.
+// It may block.
+var VerifHook func(m OpenGameManager, point string)
+
+func verifHook(m *openGameManager, point string) {
+	if fn := VerifHook; fn != nil {
+		fn(m, point)
+	}
+}
